@@ -99,11 +99,72 @@ def gen_C02(r):
     return scn
 
 
+def _fanout_scenario(r, stop_early_p=0.7, fail_p=0.45):
+    """k independent parallel tasks under one group (optionally with a second layer), -j >= k, fast
+    failures next to long runners, completions delivered in batches"""
+    pk = _pkgs(r)
+    k = r.randint(3, 6)
+    tasks = {}
+    names = r.sample(S.NAMES, k + 2)
+    leaves = []
+    for i in range(k):
+        t = S.tid(r.choice(pk), names[i])
+        tasks[t] = {"kind": r.choice(["cmd", "cmd", "exp"]), "deps": [], "rel": [], "par": r.random() < 0.9}
+        leaves.append(t)
+    mid = None
+    if r.random() < 0.4:
+        mid = S.tid(r.choice(pk), names[k])
+        dd = r.sample(leaves, r.randint(1, 2))
+        tasks[mid] = {"kind": "cmd", "deps": dd, "rel": [False] * len(dd), "par": True}
+    top = S.tid(r.choice(pk), names[k + 1])
+    deps = leaves + ([mid] if mid else [])
+    r.shuffle(deps)
+    tasks[top] = {"kind": "group", "deps": deps, "rel": [False] * len(deps)}
+    scn = {"epoch": 1_700_000_000 + r.randrange(10**6), "tasks": tasks, "pkgs": pk, "git": {"mode": "none"},
+           "disable_git": True, "history": [],
+           "knobs": {"mon": r.random() < 0.5, "p_async": r.choice([0.0, 0.0, 1e-3, 1e-2]),
+                     "p_burst": r.choice([0.3, 0.6, 0.85]), "bias": r.choice(["uniform", "fifo", "lifo"]), "cpu_count": 8}}
+    flags = {"jobs": r.choice([k, k, k + 1, 8, "auto"])}
+    if r.random() < stop_early_p:
+        flags["stop_early"] = True
+    scripts = {}
+    for t, d in tasks.items():
+        if d["kind"] == "group":
+            continue
+        c = r.random()
+        if c < fail_p:
+            sc = {"steps": [["nop"]] * r.choice([0, 0, 0, 1]), "end": list(r.choice([["exit", 1], ["exit", 3], ["sig", 9], ["exit", 255]]))}
+        elif c < fail_p + 0.3:
+            sc = {"steps": [["nop"]] * r.choice([20, 40, 80]), "end": ["exit", 0]}
+        else:
+            sc = {"steps": [["nop"]] * r.choice([0, 0, 1, 2]), "end": ["exit", 0]}
+        if r.random() < 0.2:
+            sc["term_delay"] = r.choice([1, 3])
+        scripts[t] = [sc]
+    scn["history"] = [{"op": "run", "target": top, "flags": flags, "cwd": "", "gap": 0.0, "scripts": scripts}]
+    return scn
+
+
 def gen_C03(r):
-    scn = _base(r, n=(3, 9), kinds=KW_ALL, p_par=0.6, mon=None)
+    if r.random() < 0.3:
+        return _fanout_scenario(r)
+    wide = r.random() < 0.35        # many parallel tasks in flight: completions arrive in batches
+    scn = _base(r, n=(4, 9) if wide else (3, 9), kinds={"exp": 5, "cmd": 4, "group": 1} if wide else KW_ALL,
+                p_par=0.9 if wide else 0.6, mon=None)
+    if wide:
+        scn["knobs"]["p_burst"] = r.choice([0.5, 0.8])
+        for d in scn["tasks"].values():
+            if r.random() < 0.6:
+                d["deps"], d["rel"] = d["deps"][:1], d.get("rel", [])[:1]
     for _ in range(r.choice([1, 1, 2])):
-        scn["history"].append(_run_op(r, scn["tasks"], jobs_choices=(None, 1, 2, 3, 4), again_p=0.5,
-                                      stop_early_p=0.35, fail_p=r.choice([0.15, 0.3, 0.5]), files=False))
+        op = _run_op(r, scn["tasks"], jobs_choices=(3, 4, 4, 8) if wide else (None, 1, 2, 3, 4), again_p=0.5,
+                     stop_early_p=0.6 if wide else 0.35, fail_p=r.choice([0.15, 0.3, 0.5]), files=False)
+        if wide:
+            for lst in op["scripts"].values():
+                for sc in lst:
+                    # fast finishers next to tasks that stay in flight for a long time
+                    sc["steps"] = [["nop"]] * r.choice([0, 0, 0, 1, 2, 30, 60])
+        scn["history"].append(op)
     return scn
 
 
@@ -263,12 +324,20 @@ def gen_C07(r):
         ops += [{"op": "git", "action": "init"}, {"op": "git", "action": "commit", "name": "c0"}]
     for k in range(r.choice([1, 2, 3])):
         op = _run_op(r, scn["tasks"], jobs_choices=(None, None, 2, 4), again_p=0.25,
-                     fail_p=r.choice([0.0, 0.0, 0.15]), files=True, cwds=[""] + list(scn["pkgs"]),
+                     fail_p=r.choice([0.0, 0.0, 0.15, 0.4]), files=True, cwds=[""] + list(scn["pkgs"]),
                      target=r.choice(list(scn["tasks"])) if r.random() < 0.4 else None)
         for t, lst in op["scripts"].items():
             for sc in lst:
                 if r.random() < 0.6:
                     sc["steps"].insert(r.randint(0, len(sc["steps"])), ["lib"])
+        if r.random() < 0.2:
+            # cond itself started from inside another task (nested cond run) or from a shell that exports these
+            op["env"] = {"COND_OUT": "/nonexistent/outer.task", "COND_NAME": "outer",
+                         "COND_DEPS": "/nonexistent/dep1.task:/nonexistent/dep2.task"}
+            if r.random() < 0.5:
+                op["env"].pop(r.choice(sorted(op["env"])))
+        if k and r.random() < 0.5:
+            op["gap"] = r.choice([0.0, 0.0, 0.3])
         ops.append(op)
         if r.random() < 0.3 and scn["disable_git"] is False and ops[0]["op"] == "git":
             ops.append({"op": "git", "action": "commit", "name": "c%d" % (k + 1)})
@@ -743,3 +812,158 @@ def gen_C17(r):
 
 
 GEN["C17"] = gen_C17
+
+
+# ---- C05: structured templates on top of the random git histories -------------------------------
+
+def _c05_ops_where_run(r, tasks, exps, n=2):
+    ops = []
+    for _ in range(n):
+        if r.random() < 0.5:
+            ops.append({"op": "where", "target": r.choice(exps or list(tasks)),
+                        "flags": {"project": r.random() < 0.3}, "cwd": ""})
+        else:
+            f = {}
+            c = r.random()
+            if c < 0.2:
+                f["this_commit"] = True
+            elif c < 0.3:
+                f["again"] = True
+            ops.append({"op": "run", "target": S.pick_target(r, tasks, 0.7), "flags": f, "cwd": "",
+                        "gap": r.choice([0.0, 1.0, 5.0]), "scripts": {}})
+    return ops
+
+
+def _c05_template_merge(r, tasks, exps):
+    """versions recorded on both sides of a merge, at different depths"""
+    ops = [{"op": "git", "action": "init"}, {"op": "git", "action": "commit", "name": "c0"}]
+    k = [1]
+
+    def commit(parents=None):
+        name = "c%d" % k[0]
+        k[0] += 1
+        op = {"op": "git", "action": "commit", "name": name}
+        if parents:
+            op["parents"] = parents
+        ops.append(op)
+        return name
+
+    def maybe_run(p):
+        if r.random() < p:
+            ops.append({"op": "run", "target": r.choice(exps) if exps else S.pick_target(r, tasks),
+                        "flags": {"again": True} if r.random() < 0.7 else {}, "cwd": "",
+                        "gap": r.choice([0.0, 1.0, 3.0]), "scripts": {}})
+
+    maybe_run(0.3)
+    ops.append({"op": "git", "action": "checkout", "target": "c0", "new_branch": "feat"})
+    tip_f = "c0"
+    for _ in range(r.randint(1, 4)):
+        tip_f = commit()
+        maybe_run(0.55)
+    ops.append({"op": "git", "action": "checkout", "target": "main"})
+    tip_m = "c0"
+    for _ in range(r.randint(1, 3)):
+        tip_m = commit()
+        maybe_run(0.55)
+    first, second = (tip_m, tip_f) if r.random() < 0.7 else (tip_f, tip_m)
+    if first != second:
+        commit(parents=[first, second])
+    for _ in range(r.randint(0, 2)):
+        commit()
+        maybe_run(0.2)
+    ops += _c05_ops_where_run(r, tasks, exps, r.randint(1, 3))
+    return ops
+
+
+def _c05_template_null_foreign(r, tasks, exps):
+    """a commit-less version plus a version from a commit that is not an ancestor of HEAD"""
+    ops = []
+    start = r.choice(["nogit", "disabled", "empty"])
+    run0 = {"op": "run", "target": S.pick_target(r, tasks, 0.8), "flags": {}, "cwd": "", "gap": 0.0, "scripts": {}}
+    if start == "nogit":
+        ops += [run0, {"op": "git", "action": "init"}]
+    elif start == "disabled":
+        ops += [{"op": "config", "disable_git": True}, {"op": "git", "action": "init"},
+                {"op": "git", "action": "commit", "name": "c0"}, run0, {"op": "config", "disable_git": False}]
+    else:
+        ops += [{"op": "git", "action": "init"}, run0]
+    ops.append({"op": "git", "action": "commit", "name": "a0"})
+    if r.random() < 0.3:
+        ops.append({"op": "git", "action": "commit", "name": "a1"})
+    ops.append({"op": "git", "action": "checkout", "target": "a0", "new_branch": "feature"})
+    ops.append({"op": "git", "action": "commit", "name": "f0"})
+    ops.append({"op": "run", "target": r.choice(exps) if exps and r.random() < 0.5 else S.pick_target(r, tasks, 0.8),
+                "flags": {"again": True}, "cwd": "", "gap": 2.0, "scripts": {}})
+    ops.append({"op": "git", "action": "checkout", "target": "main"})
+    if r.random() < 0.3:
+        ops.append({"op": "git", "action": "commit", "name": "a2"})
+    ops += _c05_ops_where_run(r, tasks, exps, r.randint(1, 3))
+    return ops
+
+
+_gen_C05_random = gen_C05
+
+
+def gen_C05(r):  # noqa: F811
+    c = r.random()
+    if c < 0.5:
+        return _gen_C05_random(r)
+    pk = _pkgs(r)
+    tasks = S.gen_graph(r, r.randint(2, 4), {"exp": 8, "cmd": 1, "group": 1, "combine": 1}, pk, p_par=0.3)
+    exps = [t for t, d in tasks.items() if d["kind"] == "exp"]
+    scn = {"epoch": 1_700_000_000 + r.randrange(10**6), "tasks": tasks, "pkgs": pk,
+           "git": {"mode": "none"}, "disable_git": False, "history": [],
+           "knobs": S.gen_knobs(r, mon=False, p_async_choices=(0.0,))}
+    scn["history"] = _c05_template_merge(r, tasks, exps) if c < 0.8 else _c05_template_null_foreign(r, tasks, exps)
+    return scn
+
+
+GEN["C05"] = gen_C05
+
+
+
+# ---- fan-out template reused by other profiles ---------------------------------------------------
+_gen_C09_base, _gen_C04_base, _gen_C01_base = gen_C09, gen_C04, gen_C01
+
+
+def gen_C09(r):  # noqa: F811
+    if r.random() < 0.3:
+        scn = _fanout_scenario(r, stop_early_p=0.15, fail_p=0.2)
+        scn["knobs"]["mon"] = True
+        scn["knobs"]["p_async"] = r.choice([1e-3, 1e-2, 5e-2])
+        return scn
+    return _gen_C09_base(r)
+
+
+def gen_C04(r):  # noqa: F811
+    if r.random() < 0.3:
+        scn = _fanout_scenario(r, stop_early_p=0.1, fail_p=0.3)
+        op = scn["history"][0]
+        op["flags"]["jobs"] = r.choice([2, 3, 3, 4, 5, 6, 8, "auto"])
+        scn["knobs"]["cpu_count"] = r.choice([2, 3, 4, 8])
+        # a second layer that becomes ready while slots are being recycled
+        tasks = scn["tasks"]
+        leaves = [t for t, d in tasks.items() if d["kind"] != "group" and not d["deps"]]
+        top = [t for t, d in tasks.items() if d["kind"] == "group"][0]
+        names = [n for n in S.NAMES if all(S.split_tid(t)[1] != n for t in tasks)]
+        new = {}
+        for i in range(r.randint(1, 4)):
+            t = S.tid(r.choice(scn["pkgs"]), names[i])
+            dd = r.sample(leaves, r.randint(1, min(2, len(leaves))))
+            new[t] = {"kind": "cmd", "deps": dd, "rel": [False] * len(dd), "par": r.random() < 0.85}
+        g = tasks.pop(top)
+        tasks.update(new)
+        g["deps"] = g["deps"] + list(new)
+        g["rel"] = [False] * len(g["deps"])
+        tasks[top] = g
+        return scn
+    return _gen_C04_base(r)
+
+
+def gen_C01(r):  # noqa: F811
+    if r.random() < 0.15:
+        return gen_C04(r)
+    return _gen_C01_base(r)
+
+
+GEN["C09"], GEN["C04"], GEN["C01"] = gen_C09, gen_C04, gen_C01
